@@ -12,11 +12,12 @@ RULE = ("cases = /asm/v1 requests (binary, startAddress, size, continueUntilFunc
         "continuation on/off. The decoder oracle is obtained by calling the same yaxpeax decoder at every byte offset of the bytes read (window of %d bytes). "
         "non-trivial = the listing contains an undecodable instruction, or continuation extended the length, or alignment moved the start" % WINDOW)
 TRUSTED = ["yaxpeax decoders as oracle (assumed: success consumes 1..remaining bytes; deciding 'invalid' consumes >= 1 byte - checked on every oracle entry, cases violating it are not judged)",
-           "the bytes are read through samply-symbols' read_bytes_at_relative_address by both the API and the harness (that the bytes are those of the binary at that address is not independently checked here)",
+           "the decoder oracle runs on bytes read through samply-symbols' read_bytes_at_relative_address; that these are the bytes of the binary at that address - all of them up to the section's end - is checked against a reading of the file's section table with the object crate (harness h_api asm.rs independent_bytes; unavailable for fat Mach-O archives)",
            "no 32-bit x86 fixture survives in this sandbox (emptied files), so the i686 decoder is not exercised"]
 ASSUMPTIONS = ["failed requests (error JSON) are outside the property and only counted; listings reaching beyond the oracle window are not judged"]
 
 _info_cache = None
+_state = {}
 
 
 def _bin():
@@ -47,6 +48,52 @@ def prove():
     return K.prove(PROP, extra_targets=["Tie/C20.vo"])
 
 
+_bounds_cache = {}
+
+
+def _elf_section_bounds(path):
+    """relative addresses of section starts and ends of an ELF file (allocated sections), read from its section header table; [] for other formats.
+    Sections of ELF files often abut (.plt|.text, .text|.fini): a start address there is the first byte of one section and one past the end of another"""
+    if path in _bounds_cache:
+        return _bounds_cache[path]
+    import struct
+    out = []
+    try:
+        d = open(path, "rb").read()
+        if d[:4] == b"\x7fELF" and d[5] == 1:
+            is64 = d[4] == 2
+            if is64:
+                shoff, = struct.unpack_from("<Q", d, 0x28)
+                shentsize, shnum = struct.unpack_from("<HH", d, 0x3A)
+            else:
+                shoff, = struct.unpack_from("<I", d, 0x20)
+                shentsize, shnum = struct.unpack_from("<HH", d, 0x2E)
+            base = None
+            phoff, = struct.unpack_from("<Q" if is64 else "<I", d, 0x20 if is64 else 0x1C)
+            phentsize, phnum = struct.unpack_from("<HH", d, 0x36 if is64 else 0x2A)
+            for i in range(phnum):
+                o = phoff + i * phentsize
+                ptype, = struct.unpack_from("<I", d, o)
+                if ptype == 1:
+                    vaddr, = struct.unpack_from("<Q", d, o + 0x10) if is64 else struct.unpack_from("<I", d, o + 8)
+                    off, = struct.unpack_from("<Q", d, o + 8) if is64 else struct.unpack_from("<I", d, o + 4)
+                    if base is None or vaddr - off < base:
+                        base = (vaddr - off) if vaddr >= off else 0
+            base = base or 0
+            for i in range(shnum):
+                o = shoff + i * shentsize
+                if is64:
+                    flags, addr, _off, size = struct.unpack_from("<QQQQ", d, o + 8)
+                else:
+                    flags, addr, _off, size = struct.unpack_from("<IIII", d, o + 8)
+                if flags & 2 and addr >= base and size:
+                    out += [addr - base, addr - base + size]
+    except Exception:
+        out = []
+    _bounds_cache[path] = sorted(set(x for x in out if 0 <= x < 2**32))
+    return _bounds_cache[path]
+
+
 def gen(tier, rng, scale):
     quick = tier == "quick"
     try:
@@ -68,6 +115,10 @@ def gen(tier, rng, scale):
             start = max(0, base - rng.range(1, 16))
         else:
             start = rng.below(max(syms) + 4096)
+        bounds = _elf_section_bounds(os.path.join("/repo/fixtures", f["dir"], f["name"]))
+        if bounds and rng.chance(1, 8):
+            # the first byte of a section / one past the end of a section (often both at once), and the neighbouring bytes
+            start = max(0, rng.choice(bounds) + rng.choice([0, 0, 0, -1, 1, -4, 4]))
         size = rng.choice([0, 1, 2, 3, 4, 7, 8, 15, 16, 17, 24, 32, 33, 48, 63, 64, rng.below(65), rng.below(300), 600])
         if rng.chance(1, 60):
             size = rng.choice([2**31, 2**32 - 1, 2**32 - 15, 2**32 - 16, 10**6])
@@ -93,6 +144,7 @@ def evaluate(cases):
         raise K.TieBroken("h_api asm failed (rc=%s, %d/%d lines): %s" % (rc, len(outl), len(cases), err[-500:]))
     terms = []
     fixed = {}
+    indbad = {}
     for i, (c, l) in enumerate(zip(cases, outl)):
         it = c["items"][0]
         a = _arch(it[4])
@@ -107,6 +159,12 @@ def evaluate(cases):
             continue
         head, listed, oracle = l.split("|")
         kv = dict(x.split("=") for x in head.split()[1:])
+        st = _state.setdefault("independent_byte_reading", {"agrees": 0, "differs": 0, "unavailable": 0})
+        st["agrees" if kv.get("ind") == "ok" else "unavailable" if kv.get("ind", "none") == "none" else "differs"] += 1
+        if kv.get("ind", "none").startswith("bad"):
+            # the bytes the listing was decoded from are not the bytes (or not all of the bytes) the file has at that relative address
+            indbad[i] = kv["ind"]
+            c["_out"] = "read_bytes_at_relative_address returned %s bytes; an independent reading of the file gives: %s (admissible lengths, or other bytes)" % tuple(kv["ind"].split(":")[1:3])
         fend = "None" if kv["fend"] == "-" else "Some %s" % kv["fend"]
         lst = K.coq_list(["(%s, %s)" % (x.split(":")[0], "KValid" if x.split(":")[1] == "v" else "KInvalid") for x in listed.split()])
         orc = []
@@ -129,6 +187,9 @@ def evaluate(cases):
         out[i] = v
     for i, v in fixed.items():
         out[i] = v
+    for i in indbad:
+        if out[i] is not None and out[i] % 10 != 2:
+            out[i] = out[i] - out[i] % 10 + 2
     return out
 
 
@@ -138,7 +199,10 @@ def known(case):
 
 def describe(case):
     it = case["items"][0]
-    return {"fixture": it[0] + "/" + it[1], "arch": it[4], "startAddress": hex(it[5]), "size": hex(it[6]), "continueUntilFunctionEnd": bool(it[7])}
+    d = {"fixture": it[0] + "/" + it[1], "arch": it[4], "startAddress": hex(it[5]), "size": hex(it[6]), "continueUntilFunctionEnd": bool(it[7])}
+    if "_out" in case:
+        d["error"] = case["_out"]
+    return d
 
 
 def distribution(cases):
@@ -149,6 +213,7 @@ def distribution(cases):
         d["continue"] += it[7]
         b = "0" if it[6] == 0 else ("<=16" if it[6] <= 16 else "<=64" if it[6] <= 64 else "<=600" if it[6] <= 600 else "huge")
         d["size_hist"][b] = d["size_hist"].get(b, 0) + 1
+    d.update(_state)
     return d
 
 
